@@ -69,13 +69,14 @@ P = {
 }
 
 
-COMMON = ('; workloads widened over twelve rounds of independently seeded defects (521 changes) and a systematic first-order mutation of the '
+COMMON = ('; workloads widened over thirteen rounds of independently seeded defects (561 changes) and a systematic first-order mutation of the '
           'library: scale regimes, input representations (numpy scalars, str subclasses, falsy user objects, identifiers with pattern / template '
           'metacharacters or unnormalised unicode, integers beyond the range of a double), alternative call spellings and less-travelled public '
           'entry points (deprecated aliases, defaults, documented attributes read and written directly), a second model / world / library kept '
           'alive, histories that contain failures (exceptions and KeyboardInterrupt-likes from user callbacks, refused calls) with the caller '
           'carrying on, deep-copied / restored objects, re-entrant callbacks and systems registered from inside a timestep, histories that go on '
-          'after the model completed; the cases of every run are spread over interpreter modes (default, python -O, warnings as errors, debug '
+          'after the model completed, several operations between two looks of the monitor (validated-instead-of-invalidated caches go stale only '
+          'then); the cases of every run are spread over interpreter modes (default, python -O, warnings as errors, debug '
           'logging)')
 
 
